@@ -671,7 +671,9 @@ Unwind(s) ==
        [] OTHER -> Stuck(s)
 
 StepFn(s) ==
-  CASE s.ctl.m = "e" -> IF s.stop THEN End(s, "stopped") ELSE Enter(s, s.ctl.x)
+  \* an evaluation step first looks at the stop flag, then yields to the platform (which may raise
+  \* the flag during that yield: yl), then evaluates the node
+  CASE s.ctl.m = "e" -> IF s.stop /\ ~s.yl THEN End(s, "stopped") ELSE [Enter(s, s.ctl.x) EXCEPT !.yl = FALSE]
     [] s.ctl.m = "v" -> Continue(s, s.ctl.v)
     [] OTHER -> Unwind(s)
 
@@ -703,19 +705,19 @@ InitState == [status |-> "run", ph |-> "main",
               k |-> <<>>, env |-> << [n \in {"err", "errmsg"} |-> IF n = "err" THEN VBool(FALSE) ELSE VStr(<<>>)] >>,
               tenv |-> << [n \in {"err", "errmsg"} |-> IF n = "err" THEN T_bool ELSE T_str] >>,
               heap |-> <<>>, out |-> <<>>, stop |-> FALSE, inq |-> <<>>, evi |-> 0, evb |-> <<>>,
-              tt |-> 0, tf |-> 0, xc |-> 0, rn |-> 0]
+              tt |-> 0, tf |-> 0, xc |-> 0, rn |-> 0, ns |-> 0, yl |-> FALSE, oas |-> 0]
 
 \* families define  FamInit == InitWith(<their case set>)
 InitWith(CaseSet) == /\ cs \in CaseSet
                      /\ st = Block([InitState EXCEPT !.inq = cs.inputs], cs.prog.main)
 
 Step == /\ st.status = "run"
-        /\ st' = StepFn(st)
+        /\ st' = [StepFn(st) EXCEPT !.ns = st.ns + 1]
         /\ UNCHANGED cs
 
 RaiseStop == /\ StopMode = "any"
              /\ st.status = "run" /\ ~st.stop /\ st.ctl.m = "e"
-             /\ st' = [st EXCEPT !.stop = TRUE]
+             /\ st' = [st EXCEPT !.stop = TRUE, !.yl = TRUE, !.oas = Len(st.out)]
              /\ UNCHANGED cs
 
 Deliver == /\ st.status = "idle"
@@ -760,7 +762,9 @@ OutGrows == [][\/ Len(st'.out) >= Len(st.out) /\ SubSeq(st'.out, 1, Len(st.out))
 
 \* once the stop flag is up no new evaluation step starts: at most the step in
 \* progress completes, so at most one more effect (plus the test summary)
-StopFreezes == [][st.stop /\ st.ctl.m = "e" => st'.status = "stopped"]_vars
+StopFreezes == [][st.stop /\ ~st.yl /\ st.ctl.m = "e" /\ st.status = "run" => st'.status = "stopped"]_vars
+\* ... so that at most one more effect happens after the raise (the test summary aside)
+AtMostOneMore == (st.stop /\ st.status = "run") => Len(st.out) <= st.oas + 1
 
 ---------------------------------------------------------------------------
 (* emission of behaviours for the conformance harness: in every terminal    *)
@@ -788,7 +792,7 @@ CaseJson(s) ==
    inputs |-> [i \in DOMAIN TheCase.inputs |-> [cp |-> TheCase.inputs[i]]],
    events |-> [i \in 1..s.evi |-> [name |-> TheCase.events[i].ev, args |-> TheCase.events[i].args]],
    failFast |-> TheCase.failFast, noTestSummary |-> TheCase.noSummary,
-   stopped |-> s.stop,
+   stopped |-> s.stop, steps |-> s.ns, cut |-> FALSE,
    \* soundOnly: the documentation leaves the rest of this behaviour open; only "never goes wrong"
    \* (and the effects so far being a prefix) can be demanded of the implementation
    soundOnly |-> s.status = "unspec",
